@@ -7,6 +7,7 @@ import LitexModel.Soc.Cm
 
   call bus <aw> <dw> ; <op> ; <op> ; ...
       op:  R <name> <io> <origin|N> <size> <cached> <linker> <decode>     add_region
+           names: plain numbers; 1000+k stands for "master<k>", 2000+k for "slave<k>"; `N` = automatic name
            S <name>                                                        add_slave(name) (existing region)
            S <name> <origin|N> <size> <cached> <linker> <decode>           add_slave(name, region)
            M <name>                                                        add_master
@@ -47,11 +48,11 @@ def pBusOp : List String → Option (BusOp Nat)
   | ["R", n, io, o, sz, c, l, d] => do
     some (.addRegion (← n.toNat?) { io := ← pBool io, origin := ← pOptNat o, size := ← sz.toNat?, cached := ← pBool c,
                                      linker := ← pBool l, decode := ← pBool d })
-  | ["S", n] => do some (.addSlave (← n.toNat?) none)
+  | ["S", n] => do some (.addSlave (← pOptNat n) none)
   | ["S", n, o, sz, c, l, d] => do
-    some (.addSlave (← n.toNat?) (some { io := false, origin := ← pOptNat o, size := ← sz.toNat?, cached := ← pBool c,
-                                          linker := ← pBool l, decode := ← pBool d }))
-  | ["M", n] => do some (.addMaster (← n.toNat?))
+    some (.addSlave (← pOptNat n) (some { io := false, origin := ← pOptNat o, size := ← sz.toNat?, cached := ← pBool c,
+                                           linker := ← pBool l, decode := ← pBool d }))
+  | ["M", n] => do some (.addMaster (← pOptNat n))
   | ["C", b] => do some (.setIoCheck (← pBool b))
   | _ => none
 
